@@ -26,6 +26,7 @@ type tfile struct {
 	Bad       int    // index of the failing statement, -1 = none
 	Stmts     []int  // statement ids
 	Ckpt      bool   // checkpoint file (-- atlas:checkpoint)
+	Texts     map[int]string // statement index -> SQL text instead of the journal INSERT (C13 fk stage)
 }
 
 type step struct {
@@ -43,6 +44,10 @@ type obs struct {
 	Revs    []string
 	Points  []string
 	Stderr  string
+	// only filled for scenarios with a probe (large transactions, C10 round 3)
+	HotJournal int64  // size of the rollback journal the process left behind (before anyone reopened the file)
+	DBSize     int64  // size of the database file at that moment
+	Extra      string // result of the scenario's probe queries, read after the journal/revisions
 }
 
 func (f tfile) name() string { return f.Ver + "_f.sql" }
@@ -59,7 +64,9 @@ func (f tfile) content() string {
 		b.WriteString("\n")
 	}
 	for i, id := range f.Stmts {
-		if i == f.Bad {
+		if t, ok := f.Texts[i]; ok {
+			b.WriteString(t + ";\n")
+		} else if i == f.Bad {
 			fmt.Fprintf(&b, "INSERT INTO missing VALUES (%d);\n", id)
 		} else {
 			fmt.Fprintf(&b, "INSERT INTO journal VALUES (%d);\n", id)
@@ -148,14 +155,18 @@ func readState(db string) (journal []int, revs []string, err error) {
 }
 
 // runScenario executes the steps on a fresh database.
-func runScenario(steps []step) ([]obs, error) {
+func runScenario(steps []step) ([]obs, error) { return runScenarioX(steps, nil, nil) }
+
+// runScenarioX: the same with extra setup statements (run by the independent
+// client after `CREATE TABLE journal`) and probe queries evaluated after every step.
+func runScenarioX(steps []step, setup []string, probe []string) ([]obs, error) {
 	tmp, err := os.MkdirTemp("", "vtx")
 	if err != nil {
 		return nil, err
 	}
 	defer os.RemoveAll(tmp)
 	db := filepath.Join(tmp, "t.db")
-	if err := clirun.Exec(db, "CREATE TABLE journal (id INTEGER)"); err != nil {
+	if err := clirun.Exec(db, append([]string{"CREATE TABLE journal (id INTEGER)"}, setup...)...); err != nil {
 		return nil, err
 	}
 	var res []obs
@@ -201,10 +212,28 @@ func runScenario(steps []step) ([]obs, error) {
 				}
 			}
 		}
+		if probe != nil {
+			// before any other connection opens the file (it would roll a hot journal back)
+			if st, err := os.Stat(db + "-journal"); err == nil {
+				o.HotJournal = st.Size()
+			}
+			if st, err := os.Stat(db); err == nil {
+				o.DBSize = st.Size()
+			}
+		}
 		o.Journal, o.Revs, err = readState(db)
 		if err != nil {
 			return nil, err
 		}
+		var ex []string
+		for _, q := range probe {
+			r, err := clirun.Query(db, q)
+			if err != nil {
+				return nil, err
+			}
+			ex = append(ex, strings.Join(r, ","))
+		}
+		o.Extra = strings.Join(ex, ";")
 		res = append(res, o)
 	}
 	return res, nil
@@ -238,6 +267,8 @@ type job struct {
 	id    string
 	steps []step
 	post  func(id string, steps []step, res []obs)
+	setup []string // extra setup statements / probe queries (runScenarioX)
+	probe []string
 }
 
 func main() {
@@ -265,6 +296,9 @@ func main() {
 	case "c13dry":
 		clirun.Parallel(16, genC13Dry(w, *tier, &mu))
 		return
+	case "c13fk":
+		clirun.Parallel(16, genC13Fk(w, *tier, &mu))
+		return
 	default:
 		os.Exit(2)
 	}
@@ -272,7 +306,7 @@ func main() {
 	for _, j := range jobs {
 		j := j
 		fns = append(fns, func() {
-			res, err := runScenario(j.steps)
+			res, err := runScenarioX(j.steps, j.setup, j.probe)
 			mu.Lock()
 			defer mu.Unlock()
 			if err != nil {
@@ -392,6 +426,9 @@ func genC10(w *out.W, tier string, mu *sync.Mutex) []job {
 			add(c.files, m, fmt.Sprintf("%s %v", c.label, shapeOf(c.files)))
 		}
 	}
+	big := genC10Big(w, tier)
+	w.Rule += fmt.Sprintf(". Plus %d large-transaction crash scenarios (oracle on the engine side; the journal/revision observations are also compared with the model): a file of 150 statements, alone or after a one-statement file, tx-mode {file, all}, where every statement also writes a 40 kB row into a table that existed before and updates one of 400 pre-existing 3 kB rows (a different one per statement, so committed pages are modified, go cold and are spilled) through a trigger (6 MB in one transaction, beyond SQLite's page cache), killed after half / all of its statements, before its last statement, after its last revision write, before its commit and (control) after its commit; counted as reaching the class only if the killed process left a non-empty rollback journal and a database file > 1 MB, i.e. uncommitted pages had been spilled into the database file", len(big))
+	jobs = append(jobs, big...)
 	return jobs
 }
 
